@@ -1,5 +1,6 @@
 from __future__ import annotations
 import logging
+from threading import RLock
 
 from .ldm_constants import (
     DENM,
@@ -42,6 +43,8 @@ class InterfaceLDM3:
     def __init__(self, ldm_service: LDMService) -> None:
         self.logging = logging.getLogger("local_dynamic_map")
         self.ldm_service = ldm_service
+        # update and delete are "check that the object exists, then act": one at a time
+        self._data_object_lock = RLock()
 
     def check_its_aid(self, its_application_identifier: int) -> bool:
         """
@@ -185,31 +188,32 @@ class InterfaceLDM3:
         """
         self.logging.debug(
             "Updating provider data from application_id %d", data_provider.application_id)
-        if self.ldm_service.ldm_maintenance.data_containers.exists("dataObjectID", data_provider.data_object_id):
-            data_object_type_str = self.ldm_service.get_object_type_from_data_object(
-                data_provider.data_object)
-            if self.ldm_service.ldm_maintenance.data_containers.exists(
-                data_object_type_str, data_provider.data_object_id
-            ):
-                new_data_object_id = self.ldm_service.update_provider_data(
-                    data_provider.data_object_id, data_provider.data_object
-                )  # Update data
-                if new_data_object_id is not None:
-                    return UpdateDataProviderResp(
-                        data_provider.application_id,
-                        new_data_object_id,
-                        UpdateDataProviderResult(0),
-                    )
+        with self._data_object_lock:
+            if self.ldm_service.ldm_maintenance.data_containers.exists("dataObjectID", data_provider.data_object_id):
+                data_object_type_str = self.ldm_service.get_object_type_from_data_object(
+                    data_provider.data_object)
+                if self.ldm_service.ldm_maintenance.data_containers.exists(
+                    data_object_type_str, data_provider.data_object_id
+                ):
+                    new_data_object_id = self.ldm_service.update_provider_data(
+                        data_provider.data_object_id, data_provider.data_object
+                    )  # Update data
+                    if new_data_object_id is not None:
+                        return UpdateDataProviderResp(
+                            data_provider.application_id,
+                            new_data_object_id,
+                            UpdateDataProviderResult(0),
+                        )
+                return UpdateDataProviderResp(
+                    data_provider.application_id,
+                    data_provider.data_object_id,
+                    UpdateDataProviderResult(2),
+                )
             return UpdateDataProviderResp(
                 data_provider.application_id,
                 data_provider.data_object_id,
-                UpdateDataProviderResult(2),
+                UpdateDataProviderResult(1),
             )
-        return UpdateDataProviderResp(
-            data_provider.application_id,
-            data_provider.data_object_id,
-            UpdateDataProviderResult(1),
-        )
 
     def delete_provider_data(self, data_provider: DeleteDataProviderReq) -> DeleteDataProviderResp:
         """
@@ -227,20 +231,21 @@ class InterfaceLDM3:
         """
         self.logging.debug(
             "Deleting provider data from application id %d", data_provider.application_id)
-        ldm_maintenance = self.ldm_service.ldm_maintenance
-        # Delete by identifier, in one step: deleting "the record that looks like the stored one" removed
-        # a twin with a lower identifier, missed an object updated in between and let two concurrent
-        # deletes of one object both answer SUCCEED.
-        if ldm_maintenance.data_containers.exists(
-            "dataObjectID", data_provider.data_object_id
-        ) and ldm_maintenance.del_provider_data_by_id(data_provider.data_object_id):
+        with self._data_object_lock:
+            ldm_maintenance = self.ldm_service.ldm_maintenance
+            # Delete by identifier, in one step: deleting "the record that looks like the stored one" removed
+            # a twin with a lower identifier, missed an object updated in between and let two concurrent
+            # deletes of one object both answer SUCCEED.
+            if ldm_maintenance.data_containers.exists(
+                "dataObjectID", data_provider.data_object_id
+            ) and ldm_maintenance.del_provider_data_by_id(data_provider.data_object_id):
+                return DeleteDataProviderResp(
+                    data_provider.application_id,
+                    data_provider.data_object_id,
+                    DeleteDataProviderResult.SUCCEED,
+                )
             return DeleteDataProviderResp(
                 data_provider.application_id,
                 data_provider.data_object_id,
-                DeleteDataProviderResult.SUCCEED,
+                DeleteDataProviderResult.FAILED,
             )
-        return DeleteDataProviderResp(
-            data_provider.application_id,
-            data_provider.data_object_id,
-            DeleteDataProviderResult.FAILED,
-        )
